@@ -60,3 +60,31 @@ Print Assumptions C05_adjust_max64.
 Example C05_plus32_overflows :
   Count32_Plus 4294967290 10 = 4294967295 /\ in32 4294967290 /\ in32 10.
 Proof. vm_compute. repeat split; reflexivity. Qed.
+
+(* ---- composition: every reported quantity = min(true value, capacity) ---- *)
+From GS Require Import Repo RepoProofs Deferred Scan ScanMain ScanFinal DispatchScan.
+
+(* all 22 numbers at once: the aggregation of saturating additions and running
+   maxima over the whole scan equals "saturate the true value once", provided
+   no single object size, name length or entry count reaches 2^32-1 ([small]) *)
+Theorem C05_composed : forall r enum roots names,
+  wf_b r = true -> contract r (walked roots) enum -> small r ->
+  match scan r enum roots names with
+  | SOk evs => history_of evs = sat_census (spec_census r (walked roots)) (nrefs_of roots)
+  | SPanic m => m = P_FUEL
+  | SErr _ => False
+  end.
+Proof. exact scan_correct. Qed.
+Print Assumptions C05_composed.
+
+(* the guard is needed: object sizes pass through a 32-bit counter before they
+   are added into the 64-bit totals, so a blob of 2^32+1 bytes contributes
+   2^32-1 (known finding, see known_findings.json) *)
+Theorem C05_narrow_then_wide_refuted :
+  exists r enum roots, wf_b r = true /\ contract_b r (walked roots) enum = true /\
+    match scan r enum roots true with
+    | SOk evs => h_sblobs (history_of evs) <> sat64 (s_blobs (spec_census r (walked roots)))
+    | _ => False
+    end.
+Proof. exact narrow_then_wide_refuted. Qed.
+Print Assumptions C05_narrow_then_wide_refuted.
